@@ -303,6 +303,6 @@ fn decode_case(rng: &mut Rng, case: &mut Case) -> Outcome {
 
 pub fn run(ctx: &Ctx) {
     let t = ctx.tier;
-    ctx.run_sub("construction-and-map-routes", Plan::sample(t.pick(30_000, 1_000_000), 0.6), one_case);
-    ctx.run_sub("decode-route", Plan::sample(t.pick(10_000, 400_000), 0.25), decode_case);
+    ctx.run_sub("construction-and-map-routes", Plan::sample(t.pick(150_000, 1_000_000), 0.6), one_case);
+    ctx.run_sub("decode-route", Plan::sample(t.pick(50_000, 400_000), 0.25), decode_case);
 }
